@@ -500,6 +500,9 @@ static void run_conv(Ctx& c, int op, uint64_t nn, int vfam, int lfam, uint64_t s
 
 // ------------------------------------------------------------------------------------------ block extract / save
 static void run_blocks(Ctx& c, uint64_t nnh, uint64_t nrows, uint64_t seed) {
+  if (nrows * nnh > 16384) nrows = std::max<uint64_t>(1, 16384 / nnh);  // keep the sweep over all blocks x rows affordable
+  if (nrows >= 8) c.cls("blocks:nrows>=8");
+  if (nrows == 0) c.cls("blocks:nrows=0");
   const uint64_t nn = 2 * nnh, nblk = nnh;
   Rng r(seed);
   Arena ar;
@@ -568,7 +571,7 @@ std::vector<Sub> vh_subs() {
   {
     Sub s;
     s.name = "blocks";
-    s.fields = {{"nnh", 1, 2048}, {"nrows", 1, 6}, {"seed", 0, INT64_MAX - 1}};
+    s.fields = {{"nnh", 1, 2048}, {"nrows", 1, 40}, {"seed", 0, INT64_MAX - 1}};
     s.run = [](const Vals& v, Ctx& c) { run_blocks(c, (uint64_t)v[0], (uint64_t)v[1], (uint64_t)v[2]); };
     subs.push_back(s);
   }
